@@ -6,6 +6,7 @@ package main
 import (
 	"fmt"
 	"go/types"
+	"math/bits"
 	"sort"
 	"strings"
 
@@ -548,9 +549,11 @@ func init() {
 		return func(p *Path, _ *frame, a []Value) Value {
 			x := p.asTerm(a[0], "bits.Len")
 			c := p.ctx
-			r := c.BV(0, 64)
-			_, hi := urange(x, 0)
-			for i := uint8(0); i < w && i < x.W && (hi>>i) != 0; i++ {
+			lo, hi := urange(x, 0)
+			// the result is at least the bit length of the lower bound
+			start := uint8(bits.Len64(lo))
+			r := c.BV(uint64(start), 64)
+			for i := start; i < w && i < x.W && (hi>>i) != 0; i++ {
 				bit := c.Eq(c.Extract(x, i, 1), c.BV(1, 1))
 				r = c.Ite(bit, c.BV(uint64(i)+1, 64), r)
 			}
@@ -574,5 +577,108 @@ func init() {
 			r = c.Ite(bit, c.BV(uint64(i), 64), r)
 		}
 		return r
+	})
+}
+
+// verif.DeepEqual: structural equality of two values (reflect.DeepEqual
+// natively): pointers are followed, nil and empty slices differ.
+func (p *Path) deepEqual(t types.Type, a, b Value, depth int) *Term {
+	c := p.ctx
+	if depth > 32 {
+		panic(unsupported{"DeepEqual: structure too deep"})
+	}
+	switch u := t.Underlying().(type) {
+	case *types.Basic:
+		return p.equalVals(t, a, b)
+	case *types.Pointer:
+		an, bn := isNilPtr(a), isNilPtr(b)
+		if an || bn {
+			return c.Bool(an && bn)
+		}
+		pa, ok1 := a.(*Value)
+		pb, ok2 := b.(*Value)
+		if !ok1 || !ok2 {
+			return c.Bool(a == b)
+		}
+		if pa == pb {
+			return c.T
+		}
+		return p.deepEqual(u.Elem(), p.load(u.Elem(), pa), p.load(u.Elem(), pb), depth+1)
+	case *types.Struct:
+		sa, sb := a.(Struct), b.(Struct)
+		r := c.T
+		for i := 0; i < u.NumFields(); i++ {
+			r = c.And(r, p.deepEqual(u.Field(i).Type(), sa[i], sb[i], depth+1))
+		}
+		return r
+	case *types.Slice:
+		sa, ok1 := a.([]Value)
+		sb, ok2 := b.([]Value)
+		if !ok1 || !ok2 {
+			panic(unsupported{"DeepEqual over blobs"})
+		}
+		if (sa == nil) != (sb == nil) || len(sa) != len(sb) {
+			return c.F
+		}
+		r := c.T
+		for i := range sa {
+			x, y := sa[i], sb[i]
+			if x == nil {
+				x = p.zero(u.Elem())
+			}
+			if y == nil {
+				y = p.zero(u.Elem())
+			}
+			r = c.And(r, p.deepEqual(u.Elem(), x, y, depth+1))
+		}
+		return r
+	case *types.Array:
+		sa, sb := a.(Array), b.(Array)
+		r := c.T
+		for i := range sa {
+			x, y := sa[i], sb[i]
+			if x == nil {
+				x = p.zero(u.Elem())
+			}
+			if y == nil {
+				y = p.zero(u.Elem())
+			}
+			r = c.And(r, p.deepEqual(u.Elem(), x, y, depth+1))
+		}
+		return r
+	case *types.Interface:
+		ia, ib := a.(Iface), b.(Iface)
+		if ia.T == nil || ib.T == nil {
+			return c.Bool(ia.T == nil && ib.T == nil)
+		}
+		if !types.Identical(ia.T, ib.T) {
+			return c.F
+		}
+		return p.deepEqual(ia.T, ia.V, ib.V, depth+1)
+	case *types.Map:
+		ma, mb := a.(*Map), b.(*Map)
+		if ma == nil || mb == nil {
+			return c.Bool(ma == nil && mb == nil)
+		}
+		if len(ma.K) == 0 && len(mb.K) == 0 {
+			return c.T
+		}
+		panic(unsupported{"DeepEqual over non-empty maps"})
+	case *types.Signature, *types.Chan:
+		return c.Bool(isNilPtr(a) && isNilPtr(b))
+	}
+	panic(unsupported{"DeepEqual over " + t.String()})
+}
+
+func init() {
+	reg(verifPkg+".DeepEqual", func(p *Path, _ *frame, a []Value) Value {
+		x, y := a[0].(Iface), a[1].(Iface)
+		if x.T == nil || y.T == nil {
+			return p.ctx.Bool(x.T == nil && y.T == nil)
+		}
+		if !types.Identical(x.T, y.T) {
+			return p.ctx.F
+		}
+		return p.deepEqual(x.T, x.V, y.V, 0)
 	})
 }
